@@ -15,7 +15,7 @@ PACKAGES = ["hserde"]
 RULE = ("rt <type> <value>: ~100 serde types (std + derived: every Serializer/Deserializer method, externally / internally / adjacently tagged, "
         "untagged, flatten, bytes newtype, unknown-length seq/map, fields skipped at run time by skip_serializing_if in structs and struct variants, "
         "alone and inside Vec / tuple / struct) x type-directed values (integers dense at width edges 2^k±3, containers of "
-        "0,1,2,3,23,24,25,255,256 elements, NaNs, char boundaries).  The orchestrator re-encodes the value with its own encoder of the *documented* "
+        "0,1,2,3,23,24,25,255,256 elements, bulk documents with 130 / 300 (thorough: 127..1000) compound elements per container, NaNs, char boundaries).  The orchestrator re-encodes the value with its own encoder of the *documented* "
         "representation and checks: bytes equal, one well-formed item (own RFC 8949 parser), de(ser v) == v, consumed == len.  "
         "de <type> <hex>: the same values re-framed by the orchestrator (wider heads, definite<->indefinite seq/map/struct maps, unknown extra "
         "struct fields, shuffled fields: all must be accepted with the same value; chunked strings / indefinite tuples: never a different value), "
@@ -137,6 +137,21 @@ def streams(rng, tier):
                     mb[rng.randrange(len(mb))] = rng.choice([0x00, 0x17, 0x18, 0x1b, 0x20, 0x38, 0x3b, 0x40, 0x5f, 0x60, 0x7f, 0x80, 0x9f, 0xa0, 0xa1,
                                                              0xbf, 0xc0, 0xf4, 0xf6, 0xf7, 0xf9, 0xfa, 0xfb, 0xff, rng.getrandbits(8)])
                     hostile.append(f"de {name} {T.hx(bytes(mb))} #m=mut")
+    # bulk documents: hundreds of tuples / fixed arrays / options / structs / enum values in ONE document (state that a
+    # (de)serialiser keeps per document, e.g. a depth or budget counter, only shows after many nested values)
+    for name in sorted(ALL):
+        t = TREES[name]
+        if not T.has_container(t):
+            continue
+        for count in ((130, 300) if tier == "quick" else (127, 128, 129, 255, 256, 257, 300, 1000)):
+            v = T.gen_bulk(rng, t, count)
+            s = T.show_val(v)
+            if len(s) > 40000 or len(T.spec_enc(v)) > 8192:        # the model driver is quadratic in the document size
+                continue
+            rt_ops.append(f"rt {name} {s}")
+            for m in ("flip", "mixed"):
+                h = T.spec_enc(v, dict(MUST[m], rng=rng)).hex()
+                de_ops.append(f"de {name} {h} #m={m} #v={s}")
     # floats of another width (and NaNs) where a float is read, directly and through the Content buffer
     for f32 in T.INTERESTING_F32 + [0x7f800001, 0xff800001, 0xfffef5a9, 0x7fc00001]:
         for name in ("Untagged", "f64", "f32", "vec_untagged"):
